@@ -653,8 +653,46 @@ func writeReplayFile(path, prop string, o *Obligation, rep map[string]interface{
 // stored to only by their constructors (this is what lets their values survive call-outs).
 func staticObligations(P *Program, C *Contracts) []*Obligation {
 	var out []*Obligation
+	for _, gi := range C.GlobalInvs {
+		bad := ""
+		for _, k := range P.sortedFuncKeys() {
+			fn := P.Funcs[k]
+			if !isRepoFunc(fn) || fn.Blocks == nil || strings.HasPrefix(fn.Name(), "init") {
+				continue
+			}
+			for _, b := range fn.Blocks {
+				for _, ins := range b.Instrs {
+					st, ok := ins.(*ssa.Store)
+					if !ok {
+						continue
+					}
+					root := st.Addr
+					for {
+						switch x := root.(type) {
+						case *ssa.IndexAddr:
+							root = x.X
+							continue
+						case *ssa.FieldAddr:
+							root = x.X
+							continue
+						}
+						break
+					}
+					if g, ok := root.(*ssa.Global); ok && g.Pkg.Pkg.Path() == gi.Pkg && g.Name() == gi.Global {
+						bad = shortKey(k)
+					}
+				}
+			}
+		}
+		o := &Obligation{Name: "globalinv/" + gi.Global, Kind: "immutable", Props: gi.Clause.Props, Clause: "package-level " + gi.Global + " is stored to only by init()", Fn: "program", Backend: "static", Result: "unsat", Goal: True, PC: True}
+		if bad != "" {
+			o.Result = "sat"
+			o.Output = "stored to by " + bad
+		}
+		out = append(out, o)
+	}
 	if len(C.Immutable) == 0 {
-		return nil
+		return out
 	}
 	dummyFn := (*ssa.Function)(nil)
 	_ = dummyFn
